@@ -762,7 +762,7 @@ def eval_input(bs, parse=False):
 
 # ------------------------------------------------------------------------------------------------
 
-THEOREMS = ["C05_loc_spec", "C05_loc_one_based", "C05_loc_monotone", "C05_loc_strict", "C05_loc_injective", "C05_loc_inside",
+THEOREMS = ["C05_loc_spec", "C05_loc_one_based", "C05_loc_monotone", "C05_loc_strict", "C05_loc_injective", "C05_loc_injective_on_line", "C05_loc_inside",
             "C05_loc_exact_ascii", "C05_loc_exact_chars", "C05_loc_clamped", "C05_get_location_agrees", "C05_spans_ordered_loc",
             "C05_spans_one_based_strict", "C05_error_at_offending_token", "C05_error_at_plain_token", "C05_error_beyond_tokens",
             "C05_split_spans_exact", "C05_split_positions_ordered", "C05_split_positions_inside", "C05_split_positions_shared_refuted"]
@@ -981,6 +981,21 @@ def run(tier):
                           "explanation": "these parser error sites pass a literal zero Location instead of p.currentLocation(); no generated corruption reached them"},
                          "zero_location_sites", no_input=True)
 
+    # ---- the one tokenizer error raised before any scanning: input larger than MaxInputSize
+    inp = json.dumps({"hex": b"SELECT 1;\n".hex(), "repeat": 1048577}) + "\n"
+    po = common.vh(["loc"], input=inp, timeout=300)
+    try:
+        ro = json.loads(po.stdout.splitlines()[0])
+        big_ok = (not ro["err"]["nil"]) and ro["err"].get("structured") and ro["err"]["line"] >= 1 and ro["err"]["col"] >= 1 and ro["err"]["line"] <= 1048578
+        rp.obligation("oversized input (%d bytes): the size-limit error carries a 1-based location inside the input" % ro["n"], bool(big_ok),
+                      "%s at %d:%d" % (ro["err"].get("code"), ro["err"]["line"], ro["err"]["col"]))
+        if not big_ok:
+            rp.violation({"kind": "oracle", "failure": "not_one_based", "oversize": {"hex": b"SELECT 1;\n".hex(), "repeat": 1048577},
+                          "error": ro["err"], "explanation": "the tokenizer error for an input larger than MaxInputSize carries location %d:%d (not 1-based / not inside the input)" % (ro["err"]["line"], ro["err"]["col"])},
+                         "oversize_error_location")
+    except (ValueError, IndexError, KeyError) as ex:
+        rp.violation({"kind": "harness", "detail": po.stderr[-1000:] + repr(ex)}, "loc_harness_oversize", no_input=True)
+
     # ---- fixed findings: their witnesses must pass
     for k in kf:
         if k["status"] == "fixed" and isinstance(k.get("witness"), dict) and "hex" in k["witness"]:
@@ -1085,6 +1100,11 @@ def report_failures(rp, kf, fail_by_kind, inputs, origin, parse):
 
 def replay(path):
     d = json.load(open(path))
+    if d.get("oversize"):
+        po = common.vh(["loc"], input=json.dumps(d["oversize"]) + "\n", timeout=300)
+        ro = json.loads(po.stdout.splitlines()[0])
+        print(json.dumps(ro["err"]))
+        return 0 if (not ro["err"]["nil"] and ro["err"]["line"] >= 1 and ro["err"]["col"] >= 1) else 1
     if d.get("hex") is not None and d.get("tbl"):
         p, res = run_loc([bytes.fromhex(d["hex"])], tbl=True)
         bad = not res or not res[0].get("tbl_stable", False)
